@@ -25,7 +25,8 @@ ALL_HASHES = ['sha1', 'sha224', 'sha256', 'sha384', 'sha512']
 
 KIND_POOL = [('rsa1024', 30), ('ec256', 24), ('rsa2048', 12), ('rsa1017', 10), ('ec384', 9), ('ec521', 4),
              ('rsa4096', 2)]
-CHEAP_POOL = [('rsa1024', 40), ('ec256', 25), ('rsa2048', 15), ('rsa1017', 10), ('ec384', 6)]
+CHEAP_POOL = [('rsa1024', 40), ('ec256', 30), ('rsa2048', 15), ('rsa1017', 15)]
+SWEEP_EC_POOL = [('ec256', 50), ('ec384', 25), ('rsa1024', 25)]
 
 
 class Skip(Exception):
@@ -939,7 +940,8 @@ def _n_wild_middle(g):
 def _n_wild_partial(g):
     h = _h(g)
     first, rest = h.split('.', 1)
-    return g.rng.choice([first[0] + '*.' + rest, '*' + first[-1] + '.' + rest, first + '*.' + rest, '**.' + rest]), h
+    return g.rng.choice([first[0] + '*.' + rest, '*' + first[-1] + '.' + rest, first + '*.' + rest, '**.' + rest,
+                         '*' + g.rng.choice('abx-') + rest, '*' + g.rng.choice('abx-') + rest]), h
 
 
 def _n_wild_literal(g):
@@ -1270,15 +1272,16 @@ def gen_cases(seed, worker, nworkers, ncases, out):
 def gen_sweep(seed, j, out):
     """one accepted CA-anchored chain for the byte-flip sweep; chain j of this seed"""
     g = Gen(seed, 1000 + j)
-    L = 1 + j % 4
+    L = 1 + j % 4 if j % 5 != 4 else 1 + (j // 5) % 2     # the slow-EC chains stay short
     while True:
         try:
-            case = g.base(L=L, pool=CHEAP_POOL)
+            case = g.base(L=L, pool=CHEAP_POOL if j % 5 != 4 else (SWEEP_EC_POOL if j >= 6 else [('ec256', 70), ('rsa1024', 30)]))
         except Skip:
             continue
         if j % 3 == 2 and L >= 2:
             m_anchor_mid(g, case)      # anchor in the middle: only the certificates before it are swept
-        case['impl'] = [0, 1, 6, 11][j % 4]
+        # EC through the default implementation except for every fifth chain (i15 / i31 are slow under ASan)
+        case['impl'] = [0, 1, 2, 3][j % 4] + (0 if j % 5 != 4 else [4, 8][(j // 5) % 2])
         line, ref = case_line(g, case, 's%d.sweep%d' % (seed, j), 'sweep', 0, sweep=True)
         if ref['verdict'] == 'A' and not ref['direct']:
             break
